@@ -6,7 +6,9 @@ package sim
 
 import (
 	"context"
+
 	"fmt"
+	"github.com/streamingfast/substreams/reqctx"
 	"io"
 	"sync"
 
@@ -76,6 +78,10 @@ func (c *simClient) ProcessRange(ctx context.Context, in *pbssinternal.ProcessRa
 	if try > 0 {
 		e.Probe("job_retried")
 	}
+	e.Probe("t2_jobs")
+	if reqctxIsBackfiller(ctx) {
+		e.Probe("live_backfiller_job")
+	}
 
 	d := e.Sim.Yield(caller, "net|call|"+job.ID, "unavailable_at_call", "deadline_at_call")
 	if d.Killed {
@@ -92,7 +98,11 @@ func (c *simClient) ProcessRange(ctx context.Context, in *pbssinternal.ProcessRa
 	}
 
 	node := e.Tier2s[int(H(e.Sim.Seed, "t2pick", job.ID)%uint64(len(e.Tier2s)))]
-	sctx, cancel := context.WithCancel(context.WithValue(e.rootCtx, jobCtxKey{}, job))
+	base := context.WithValue(e.rootCtx, jobCtxKey{}, job)
+	if md, ok := metadata.FromOutgoingContext(ctx); ok {
+		base = metadata.NewIncomingContext(base, md) // headers travel with the call
+	}
+	sctx, cancel := context.WithCancel(base)
 	rpc := &simRPC{env: e, job: job, cctx: ctx, sctx: sctx, cancel: cancel, events: make(chan streamEvent, 4096)}
 	e.Sim.RegisterNode(job.ID, func() {
 		cancel()
@@ -243,3 +253,5 @@ func (s *simServerStream) SetTrailer(metadata.MD)       {}
 func (s *simServerStream) Context() context.Context     { return s.rpc.sctx }
 func (s *simServerStream) SendMsg(m any) error          { return nil }
 func (s *simServerStream) RecvMsg(m any) error          { return fmt.Errorf("not supported") }
+
+func reqctxIsBackfiller(ctx context.Context) bool { return reqctx.HasBackfillerRequest(ctx) }
